@@ -24,6 +24,9 @@ func runC01(c *an.Ctx) string {
 	r016PreparedCopies(c)
 	r017ScopedNames(c)
 	r018GeneratorLints(c)
+	r023Conversions(c, "R01.9") // a wrong cast type in a conversion template is a compile error (shared with C02/R02.3)
+	r0110NilableKinds(c, "R01.10")
+	aliasFlattening(c, "R01.11") // an unflattened alias leaves validation code written for the primitive on a user type
 	return explanationC01
 }
 
@@ -375,4 +378,75 @@ func r018GeneratorLints(c *an.Ctx) {
 	}
 	c.Okf(rule, "generators#lints", "%d generator functions: no stale flag or per-iteration variable, no inconsistent seen-set key, no dropped recursion guard, no reused slice", n)
 	tplRangeIndexRule(c, rule, "http/codegen/templates", "grpc/codegen/templates", "codegen/service/templates", "codegen/example/templates", "codegen/cli/templates")
+}
+
+// r0110NilableKinds (R01.10): of the primitive kinds, bytes ([]byte) and any
+// (interface) are the two whose Go representation is already nilable: they are
+// never turned into pointers. The decision is taken independently in several
+// places (expr.IsPrimitivePointer, the validation generator twice, the name
+// scope, the CLI flag builder); every boolean expression that singles out one of
+// the two kinds must single out the other as well, or the places disagree on
+// whether a field is a pointer and the generated code does not compile
+// (`*body.Value` on an `any`, nil comparison on a value).
+func r0110NilableKinds(c *an.Ctx, rule string) {
+	n := 0
+	for _, dir := range append([]string{"expr"}, genDirs...) {
+		for _, f := range c.AllFuncs(dir) {
+			info := f.Pkg.TypesInfo
+			// maximal boolean expressions
+			seen := map[ast.Expr]bool{}
+			ast.Inspect(f.Decl.Body, func(nd ast.Node) bool {
+				e, ok := nd.(ast.Expr)
+				if !ok {
+					return true
+				}
+				b, ok := e.(*ast.BinaryExpr)
+				if !ok || seen[e] {
+					return true
+				}
+				if b.Op != token.LAND && b.Op != token.LOR && b.Op != token.EQL && b.Op != token.NEQ {
+					return true
+				}
+				kinds := map[string]bool{}
+				ast.Inspect(e, func(m ast.Node) bool {
+					if me, ok := m.(ast.Expr); ok {
+						seen[me] = true
+					}
+					cmp, ok := m.(*ast.BinaryExpr)
+					if !ok || (cmp.Op != token.EQL && cmp.Op != token.NEQ) {
+						return true
+					}
+					for _, side := range []ast.Expr{cmp.X, cmp.Y} {
+						var id *ast.Ident
+						switch x := an.Unparen(side).(type) {
+						case *ast.Ident:
+							id = x
+						case *ast.SelectorExpr:
+							id = x.Sel
+						}
+						if id == nil {
+							continue
+						}
+						if k, ok := info.Uses[id].(*types.Const); ok && k.Pkg() != nil && k.Pkg().Path() == an.P("expr") && strings.HasSuffix(k.Name(), "Kind") {
+							kinds[k.Name()] = true
+						}
+					}
+					return true
+				})
+				if !kinds["BytesKind"] && !kinds["AnyKind"] {
+					return false
+				}
+				for k := range kinds {
+					if k != "BytesKind" && k != "AnyKind" && k != "StringKind" {
+						return false // a decision about something else (kinds that have a length, …)
+					}
+				}
+				n++
+				construct := fmt.Sprintf("%s#kinds(%s)", f.Name, an.Src(c.Fset, e))
+				c.Check(kinds["BytesKind"] && kinds["AnyKind"], rule, construct, e.Pos(), "bytes and any are singled out together", "the expression singles out "+map[bool]string{true: "BytesKind", false: "AnyKind"}[kinds["BytesKind"]]+" but not the other nilable primitive kind: this place now disagrees with the others on which primitives are pointers")
+				return false
+			})
+		}
+	}
+	c.Floor(rule, n, 4, "boolean expressions singling out the nilable primitive kinds")
 }
